@@ -47,6 +47,17 @@ func (r *resendContext) later(msg MessagePlaintext, opaque ...interface{}) {
 	r.messages.m = append(r.messages.m, messageToResend{makeCopy(msg), opaque})
 }
 
+// last remembers msg as the only message that may be retransmitted.
+// Messages without text (heartbeats, TLV-only messages) leave the remembered message alone.
+func (r *resendContext) last(msg MessagePlaintext) {
+	if r.retransmitting || len(msg) == 0 {
+		return
+	}
+
+	r.clear()
+	r.later(msg)
+}
+
 func (r *resendContext) pending() []messageToResend {
 	r.messages.RLock()
 	defer r.messages.RUnlock()
